@@ -1620,6 +1620,33 @@ fn gen_c06(ctx: &mut Ctx) {
             ctx.monitor(ok, "C06-bitmap", &line, &res);
         }
     }
+    // a fill (or a single set) as the FIRST edit of a borrowed or owned page whose pixel bytes are uniform: whatever the bytes
+    // already look like (all of the fill value, its low or high bits only, alternating bits), every pixel reads the value after
+    for &(w, h) in &[(1u32, 7u32), (2, 8), (3, 9), (3, 12), (2, 15), (2, 16), (2, 17), (3, 20), (1, 24), (2, 31), (90, 7), (5, 12)] {
+        let (w64, h64) = (w as u64, h as u64);
+        let total = total_bytes(w64, h64) as usize;
+        for fill in [0x00u8, 0xFF, 0x0F, 0xF0, 0x55, 0xAA, 0x7F, 0x80, 0x01, 0xFE] {
+            for v in [0u8, 1] {
+                for own in ["B", "O"] {
+                    if own == "O" && (w, h) != (3, 12) {
+                        continue;
+                    }
+                    let mut ops = vec![format!("A.{}", v)];
+                    for x in 0..w64 {
+                        for y in 0..h64 {
+                            ops.push(format!("G.{}.{}", x, y));
+                        }
+                    }
+                    let line = format!("PG {} {} {}.{} {}", w, h, own, hex_of_bytes(&vec![fill; total]), ops.join(" "));
+                    let res = ctx.case(line.clone(), true, "uniform-bytes-then-fill");
+                    let toks: Vec<&str> = res.split(' ').collect();
+                    let want = v.to_string();
+                    let ok = toks.len() >= ops.len() && toks[1..ops.len()].iter().all(|t| *t == want.as_str());
+                    ctx.monitor(ok, "C06-bitmap-refinement", &line, "after set_all_pixels every pixel reads the value");
+                }
+            }
+        }
+    }
     let mut rng = Rng::new(ctx.seed, 6);
     let mut szs = sizes(ctx, &mut rng, 40);
     // tall and wide pages: rows and columns beyond 255 / 256 / 65535 must not alias onto lower ones
